@@ -489,6 +489,7 @@ def propagate_aliases(fn: ast.FunctionDef) -> tuple[ast.FunctionDef, int]:
     if not fn.args.args:
         return fn, 0
     selfn = fn.args.args[0].arg
+    params = {a.arg for a in fn.args.posonlyargs + fn.args.args + fn.args.kwonlyargs}
     stores: dict[str, int] = {}
     for n in ast.walk(fn):
         if isinstance(n, ast.Name) and isinstance(n.ctx, (ast.Store, ast.Del)):
@@ -537,15 +538,175 @@ def propagate_aliases(fn: ast.FunctionDef) -> tuple[ast.FunctionDef, int]:
     return new, len(alias)
 
 
+def index_loops_to_zip(fn: ast.FunctionDef) -> tuple[ast.FunctionDef, int]:
+    """`for i in range(len(A)): x = A[i]; y = B[i]; <rest without i>`  ->  `for x, y in zip(A, B): <rest>`
+    (and the one-collection form `for x in A`).  The bound may be a local bound once to len(A).  The two forms differ
+    only when the lengths differ (IndexError instead of truncation); rules that depend on the length comparison check
+    it separately, as they do for zip."""
+    stores: dict[str, int] = {}
+    for n in ast.walk(fn):
+        if isinstance(n, ast.Name) and isinstance(n.ctx, (ast.Store, ast.Del)):
+            stores[n.id] = stores.get(n.id, 0) + 1
+    lens: dict[str, str] = {}
+    chains: dict[str, ast.expr] = {}
+    for n in ast.walk(fn):
+        if isinstance(n, ast.Assign) and len(n.targets) == 1 and isinstance(n.targets[0], ast.Name) and stores.get(n.targets[0].id) == 1:
+            v = n.value
+            if isinstance(v, ast.Attribute) and _pure_chain(v):
+                chains[n.targets[0].id] = v
+            if isinstance(v, ast.Call) and isinstance(v.func, ast.Name) and v.func.id == "len" and len(v.args) == 1:
+                lens[n.targets[0].id] = ast.unparse(v.args[0])
+    count = 0
+
+    class T(ast.NodeTransformer):
+        def visit_For(self, node: ast.For):
+            nonlocal count
+            self.generic_visit(node)
+            if not (isinstance(node.target, ast.Name) and isinstance(node.iter, ast.Call) and isinstance(node.iter.func, ast.Name) and node.iter.func.id == "range" and len(node.iter.args) == 1 and not node.orelse):
+                return node
+            i = node.target.id
+            b = node.iter.args[0]
+            if isinstance(b, ast.Call) and isinstance(b.func, ast.Name) and b.func.id == "len" and len(b.args) == 1:
+                bound = ast.unparse(b.args[0])
+            elif isinstance(b, ast.Name) and b.id in lens:
+                bound = lens[b.id]
+            else:
+                return node
+            heads = []
+            k = 0
+            for st in node.body:
+                if isinstance(st, ast.Assign) and len(st.targets) == 1 and isinstance(st.targets[0], ast.Name) and isinstance(st.value, ast.Subscript) and isinstance(st.value.slice, ast.Name) and st.value.slice.id == i and _pure_chain(st.value.value):
+                    heads.append((st.targets[0].id, st.value.value))
+                    k += 1
+                else:
+                    break
+            if not heads or len(heads) > 2:
+                return node
+            rest = node.body[k:]
+            if any(isinstance(x, ast.Name) and x.id == i for st in rest for x in ast.walk(st)):
+                return node
+            heads = [(nm, copy.deepcopy(chains[c.id]) if isinstance(c, ast.Name) and c.id in chains else c) for nm, c in heads]
+            colls = [ast.unparse(c) for _, c in heads]
+            bound = ast.unparse(chains[bound]) if bound in chains else bound
+            if bound not in colls:
+                return node
+            if any(stores.get(nm, 0) != 1 for nm, _ in heads):
+                return node
+            if len(heads) == 1:
+                new = ast.For(target=ast.Name(id=heads[0][0], ctx=ast.Store()), iter=heads[0][1], body=rest or [ast.Pass()], orelse=[], type_comment=None)
+            else:
+                new = ast.For(
+                    target=ast.Tuple(elts=[ast.Name(id=h[0], ctx=ast.Store()) for h in heads], ctx=ast.Store()),
+                    iter=ast.Call(func=ast.Name(id="zip", ctx=ast.Load()), args=[h[1] for h in heads], keywords=[]),
+                    body=rest or [ast.Pass()], orelse=[], type_comment=None,
+                )
+            count += 1
+            return ast.copy_location(new, node)
+
+    probe = any(isinstance(n, ast.For) and isinstance(n.iter, ast.Call) and isinstance(n.iter.func, ast.Name) and n.iter.func.id == "range" for n in ast.walk(fn))
+    if not probe:
+        return fn, 0
+    new = copy.deepcopy(fn) if not getattr(fn, "_xsa_copy", False) else fn
+    new = T().visit(new)
+    if count == 0:
+        return fn, 0
+    ast.fix_missing_locations(new)
+    new._xsa_copy = True  # type: ignore[attr-defined]
+    return new, count
+
+
+_CURSOR = {("first_op", "next_op"): "ops", ("_first_op", "_next_op"): "ops", ("first_block", "next_block"): "blocks", ("_first_block", "_next_block"): "blocks"}
+
+
+def lockstep_to_zip(fn: ast.FunctionDef) -> tuple[ast.FunctionDef, int]:
+    """a = X.first_op; b = Y.first_op; while a is not None and b is not None: BODY; a = a.next_op; b = b.next_op
+    ->  for a, b in zip(X.ops, Y.ops): BODY      (same for first_block / next_block -> blocks).
+    The while loop stops when either list runs out, exactly like zip; BODY must not `continue` nor rebind a / b."""
+    if not any(isinstance(n, ast.While) for n in ast.walk(fn)):
+        return fn, 0
+    count = 0
+
+    def cursor_init(st: ast.stmt):
+        if isinstance(st, ast.Assign) and len(st.targets) == 1 and isinstance(st.targets[0], ast.Name) and isinstance(st.value, ast.Attribute) and _pure_chain(st.value):
+            return st.targets[0].id, st.value.value, st.value.attr
+        return None
+
+    def advance(st: ast.stmt):
+        if isinstance(st, ast.Assign) and len(st.targets) == 1 and isinstance(st.targets[0], ast.Name) and isinstance(st.value, ast.Attribute) and isinstance(st.value.value, ast.Name) and st.value.value.id == st.targets[0].id:
+            return st.targets[0].id, st.value.attr
+        return None
+
+    def rewrite(body: list[ast.stmt]) -> list[ast.stmt]:
+        nonlocal count
+        out: list[ast.stmt] = []
+        for st in body:
+            for fld in ("body", "orelse", "finalbody"):
+                blk = getattr(st, fld, None)
+                if isinstance(blk, list) and blk and isinstance(blk[0], ast.stmt):
+                    setattr(st, fld, rewrite(blk))
+            if isinstance(st, ast.Try):
+                for h in st.handlers:
+                    h.body = rewrite(h.body)
+            done = False
+            if isinstance(st, ast.While) and not st.orelse and isinstance(st.test, ast.BoolOp) and isinstance(st.test.op, ast.And) and len(st.test.values) == 2 and len(st.body) >= 2:
+                names = []
+                for v in st.test.values:
+                    if isinstance(v, ast.Compare) and len(v.ops) == 1 and isinstance(v.ops[0], ast.IsNot) and isinstance(v.left, ast.Name) and isinstance(v.comparators[0], ast.Constant) and v.comparators[0].value is None:
+                        names.append(v.left.id)
+                adv = [advance(x) for x in st.body[-2:]]
+                if len(names) == 2 and all(adv) and {a[0] for a in adv} == set(names) and adv[0][1] == adv[1][1]:
+                    nxt = adv[0][1]
+                    inner = st.body[:-2]
+                    bad = any(isinstance(x, ast.Continue) for b in inner for x in ast.walk(b)) or any(isinstance(x, ast.Name) and isinstance(x.ctx, ast.Store) and x.id in names for b in inner for x in ast.walk(b))
+                    # the two initialisations: the last stores to the cursors among the preceding statements of this list
+                    inits = {}
+                    for prev in reversed(out):
+                        ci = cursor_init(prev)
+                        if ci and ci[0] in names and ci[0] not in inits:
+                            inits[ci[0]] = (prev, ci[1], ci[2])
+                            continue
+                        if any(isinstance(x, ast.Name) and isinstance(x.ctx, ast.Store) and x.id in names for x in ast.walk(prev)):
+                            break
+                    loads_in = sum(1 for x in ast.walk(st) if isinstance(x, ast.Name) and isinstance(x.ctx, ast.Load) and x.id in names)
+                    loads_all = sum(1 for x in ast.walk(root) if isinstance(x, ast.Name) and isinstance(x.ctx, ast.Load) and x.id in names)
+                    bad = bad or loads_all != loads_in  # a cursor read after the loop would see a different value
+                    if not bad and len(inits) == 2 and inits[names[0]][2] == inits[names[1]][2] and (inits[names[0]][2], nxt) in _CURSOR:
+                        coll = _CURSOR[(inits[names[0]][2], nxt)]
+                        # the cursors must not be read after the loop
+                        for nm in names:
+                            out.remove(inits[nm][0])
+                        new = ast.For(
+                            target=ast.Tuple(elts=[ast.Name(id=nm, ctx=ast.Store()) for nm in names], ctx=ast.Store()),
+                            iter=ast.Call(func=ast.Name(id="zip", ctx=ast.Load()), args=[ast.Attribute(value=inits[nm][1], attr=coll, ctx=ast.Load()) for nm in names], keywords=[]),
+                            body=inner or [ast.Pass()], orelse=[], type_comment=None,
+                        )
+                        out.append(ast.copy_location(new, st))
+                        count += 1
+                        done = True
+            if not done:
+                out.append(st)
+        return out
+
+    new = copy.deepcopy(fn) if not getattr(fn, "_xsa_copy", False) else fn
+    root = new
+    new.body = rewrite(new.body)
+    if count == 0:
+        return fn, 0
+    ast.fix_missing_locations(new)
+    new._xsa_copy = True  # type: ignore[attr-defined]
+    return new, count
+
+
 def inline(fi) -> ast.AST:
     """Normalised copy of fi.raw_node: private helpers inlined, field aliases propagated (the node itself when
     nothing applies)."""
     new = _inline_helpers(fi)
     is_method = fi.cls is not None and not any(isinstance(d, ast.Name) and d.id in ("staticmethod", "classmethod") for d in fi.raw_node.decorator_list)
-    if not is_method:
-        return new
-    new2, n = propagate_aliases(new)
-    return new2
+    if is_method:
+        new, _ = propagate_aliases(new)
+    new, _ = index_loops_to_zip(new)
+    new, _ = lockstep_to_zip(new)
+    return new
 
 
 def _inline_helpers(fi) -> ast.AST:
